@@ -188,7 +188,7 @@ def build(cfg, src):
         if version == "TLS13" and ticket_at == i:
             items.append(Item(True, conn.record(True, 0x16, T.hs(4, src.bytes("ticket", 3))), kind="enc-NewSessionTicket"))
         from_server = src.flag("dir%d" % i) if cfg.get("sym_dirs", True) else bool(cfg["dirs"][i])
-        n = lens[i] if lens else src.choice("len%d" % i, list(range(0, cfg.get("max_len", 2) + 1)))
+        n = lens[i] if lens else src.choice("len%d" % i, list(range(cfg.get("min_len", 0), cfg.get("max_len", 2) + 1)))
         pt = src.bytes("app%d" % i, n)
         pad = cfg.get("pad", 0) if version == "TLS13" else 0
         xb = cfg.get("extra_pad_blocks", 0)
